@@ -123,6 +123,9 @@ PcAfter(e) ==
 \* re-ordered evaluation, say): the harness reports "Mismatch-*" alone as specification drift, not as a violation.
 Reasons(e) ==
   (IF e.ev = "FunItems" /\ ~ObsUnchanged(e) THEN {"StateChangedOutsideCommit"} ELSE {})
+  \* the first residual of a Newton run is taken at the iterate the run has to start from: x0 as last linked to a converged substep
+  \* (or as handed over), else the field left by the previous converged substep
+  \cup (IF e.ev = "FunItems" /\ pc = "Resid0" /\ ~Match(StartIterate, e.x) THEN {"NotStartedFromPreviousState"} ELSE {})
   \cup (IF e.ev = "Commit" /\ e.had /\ e.sv # Get(trial, e.item) THEN {"CommitNotTrialOfIterate"} ELSE {})
   \cup (IF e.ev = "Commit" /\ ~e.had /\ ~Match(Get(obs, e.item), e.sv) THEN {"StateChangedOutsideCommit"} ELSE {})
   \cup (IF e.ev = "Commit" /\ pc \in {"Raise", "JobRaise"} THEN {"CommitOnFailurePath"} ELSE {})
